@@ -88,7 +88,7 @@ pub struct Twin {
 pub fn is_randomized(op: Op) -> bool {
     matches!(
         op,
-        Op::KeyNew | Op::KeyNewViaBls | Op::SplitEntropy | Op::Split | Op::PokCommit | Op::ChallengeNew | Op::ChallengeNewViaBls | Op::PokTsGenerate | Op::SignCrypt | Op::TimeLock | Op::EgEncrypt | Op::EgEncryptProof | Op::EgSealRaw | Op::EgEncryptProofBlinder | Op::EnumNew | Op::Exercise
+        Op::KeyNew | Op::KeyNewViaBls | Op::SplitEntropy | Op::Split | Op::PokCommit | Op::ChallengeNew | Op::ChallengeNewViaBls | Op::PokTsGenerate | Op::SignCrypt | Op::TimeLock | Op::EgEncrypt | Op::EgEncryptProof | Op::EgSealRaw | Op::EgEncryptProofBlinder | Op::ScShareOverBase | Op::EnumNew | Op::Exercise
     )
 }
 
